@@ -1,6 +1,7 @@
 package main
 
 import (
+	"context"
 	"encoding/binary"
 	"fmt"
 	"math/rand"
@@ -12,6 +13,7 @@ import (
 	abci "github.com/cometbft/cometbft/abci/types"
 	cmtproto "github.com/cometbft/cometbft/proto/tendermint/types"
 	cmttypes "github.com/cometbft/cometbft/types"
+	gogoproto "github.com/cosmos/gogoproto/proto"
 
 	sdkmath "cosmossdk.io/math"
 
@@ -27,7 +29,6 @@ import (
 	stakingtypes "github.com/cosmos/cosmos-sdk/x/staking/types"
 
 	"github.com/strangelove-ventures/poa"
-	poakeeper "github.com/strangelove-ventures/poa/keeper"
 )
 
 const Malformed = "not-a-bech32-address"
@@ -563,20 +564,20 @@ func (n *Node) Observe() []string {
 	}
 	// authority query
 	{
-		qs := poakeeper.NewQueryServerImpl(n.App.POAKeeper)
 		a := 0
-		if res, err := qs.PoaAuthority(ctx, &poa.QueryPoaAuthorityRequest{}); err == nil && res.Authority == w.Admin.Addr.String() {
+		var res poa.QueryPoaAuthorityResponse
+		if err := n.routedQuery("/strangelove_ventures.poa.v1.Query/PoaAuthority", &poa.QueryPoaAuthorityRequest{}, &res); err == nil && res.Authority == w.Admin.Addr.String() {
 			a = 1
 		}
 		out = append(out, fmt.Sprintf("AUTH %d", a))
 	}
 	// queries
 	{
-		qs := poakeeper.NewQueryServerImpl(n.App.POAKeeper)
 		var sb strings.Builder
 		sb.WriteString("QRY")
 		for op := -1; op < NOPS; op++ {
-			res, err := qs.ConsensusPower(ctx, &poa.QueryConsensusPowerRequest{ValidatorAddress: w.valStr(op)})
+			var res poa.QueryConsensusPowerResponse
+			err := n.routedQuery("/strangelove_ventures.poa.v1.Query/ConsensusPower", &poa.QueryConsensusPowerRequest{ValidatorAddress: w.valStr(op)}, &res)
 			if err != nil {
 				fmt.Fprintf(&sb, " %d:err", op)
 			} else {
@@ -587,10 +588,10 @@ func (n *Node) Observe() []string {
 	}
 	// the pending-validators query, through the query server (what clients see), each consensus key unpacked
 	{
-		qs := poakeeper.NewQueryServerImpl(n.App.POAKeeper)
 		var sb strings.Builder
 		sb.WriteString("PQRY")
-		res, err := qs.PendingValidators(ctx, &poa.QueryPendingValidatorsRequest{})
+		var res poa.PendingValidatorsResponse
+		err := n.routedQuery("/strangelove_ventures.poa.v1.Query/PendingValidators", &poa.QueryPendingValidatorsRequest{}, &res)
 		if err == nil {
 			for _, p := range res.Pending {
 				key := -1
@@ -610,6 +611,23 @@ func (n *Node) Observe() []string {
 		out = append(out, sb.String())
 	}
 	return out
+}
+
+// routedQuery sends a query through the application's own gRPC query router (BaseApp.Query), i.e. to the query server
+// the module registered — what a client of the node reaches — and decodes the answer.
+func (n *Node) routedQuery(path string, req, resp gogoproto.Message) error {
+	bz, err := gogoproto.Marshal(req)
+	if err != nil {
+		return err
+	}
+	res, err := n.App.Query(context.Background(), &abci.RequestQuery{Path: path, Data: bz})
+	if err != nil {
+		return err
+	}
+	if res.Code != 0 {
+		return fmt.Errorf("query %s: code %d: %s", path, res.Code, res.Log)
+	}
+	return gogoproto.Unmarshal(res.Value, resp)
 }
 
 func hasLastPower(n *Node, ctx sdk.Context, addr sdk.ValAddress) (bool, error) {
